@@ -123,6 +123,12 @@ class ContiguousVectorIterator
 
     [[nodiscard]] constexpr difference_type operator+(ContiguousVectorIterator it) const noexcept { return i_ + it.i_; }
 
+    [[nodiscard]] friend constexpr ContiguousVectorIterator operator+(difference_type diff,
+                                                                       const ContiguousVectorIterator& it) noexcept
+    {
+        return it + diff;
+    }
+
     constexpr ContiguousVectorIterator& operator+=(difference_type diff) noexcept
     {
         i_ += diff;
